@@ -79,6 +79,7 @@ def run(ctx):
              "range); names and opcodes are unique")
     function_table(ctx, cr, "C02.h", lambda name: True)
     call_emission(ctx, cr, "C02.h")
+    rule_sgn(ctx, cr)
     ctx.rule("C02.g", "conversion to Integer (assignment to a % variable, \\, MOD, logical "
              "operators, CINT, subscripts) floors and range-tests a Single in f32 and a Double in "
              "f64: no narrowing float conversion feeds the float->i16 cast (see C08.e)")
@@ -583,6 +584,33 @@ def function_table(ctx, cr, rid, want):
                   "takes %s..=%s arguments" % (ar or ("?", "?")),
                   "%s is declared with %s arguments but its VM arm takes %s from the stack: a "
                   "call with the declared count under- or over-pops the value stack" % (name, rng, ar))
+
+
+def rule_sgn(ctx, cr):
+    """SGN: 0 for zero (either sign), then -1 / 1 by sign - the zero test comes first"""
+    f = cr.need_fn("mach::function::Function::sgn")
+    ctx.touch(f)
+    n = 0
+    bad = []
+    for b, i, st in f.assigns():
+        rv = st["rv"]
+        if not (rv["k"] == "use" and rv["op"].get("k") == "const"
+                and rv["op"]["const"].get("ty") == "i16"):
+            continue
+        val = rv["op"]["const"].get("s", "")
+        cs = [(op, f.describe(r), t) for op, l, r, t in f.cmp_conds_at(b)]
+        zero_known = [c for c in cs if c[0] == "Eq" and c[1] in ("const:0", "const:0.0")]
+        n += 1
+        if val.startswith("0"):
+            ok = any(c[2] is True for c in zero_known)
+        else:
+            ok = any(c[2] is False for c in zero_known)
+        if not ok:
+            bad.append((val, cs))
+    ctx.check(n == 9 and not bad, "C02.h", "sgn/zero-test-first", f.span,
+              "each of the 9 results is produced with the `== 0` question already answered",
+              "SGN produces %s without having tested the value against zero first: a negative "
+              "zero (X=0:SGN(-X), FIX(-0.5)) is answered by its sign bit, -1, instead of 0" % bad)
 
 
 def call_emission(ctx, cr, rid):
